@@ -17,7 +17,9 @@ package main
 // it only prints the digest lines.
 
 import (
+	"fmt"
 	"os"
+	"time"
 
 	. "verifharness/hlib"
 )
@@ -29,9 +31,18 @@ func main() {
 	}
 	Main("c13", func(c *Ctx) {
 		c.D.Rule = "non-trivial = distinct (kernel, input class, outcome class) signatures of the kernel differential, distinct pipeline cases whose digests were compared across the two builds, and GOOS/GOARCH pairs built"
+		// the compiler runs (overlay build, build matrix) proceed in the
+		// background while the kernel differential runs
+		t0 := time.Now()
+		mw := matrixStart(c.Thorough())
+		pw := overlayStart(c)
 		kernels(c)
-		pipeline(c)
-		matrix(c)
+		t1 := time.Now()
+		pipeline(c, pw)
+		t2 := time.Now()
+		matrixFinish(c, mw)
+		c.D.Notes = append(c.D.Notes, fmt.Sprintf("harness timing: kernels %.1fs, pipeline (incl. waiting for the overlay build) %.1fs, matrix wait %.1fs",
+			t1.Sub(t0).Seconds(), t2.Sub(t1).Seconds(), time.Since(t2).Seconds()))
 		c.D.Notes = append(c.D.Notes,
 			"instrumentation only: the assembly text is tied to the lane-16 models by running it (not modelled instruction by instruction); 'compiles for every GOOS/GOARCH' is checked by running the compiler; the non-amd64 assembly (arm64 NEON) cannot be executed on this machine and is covered by the build matrix only")
 	})
